@@ -68,11 +68,31 @@ def crash_signature(rc, err):
     return "signal %d" % -rc if rc < 0 else "exit %d" % rc
 
 
+def private_builds(run):
+    """gcc and sanitizer builds of the working tree's codec, copied into the run's scratch directory (the shared
+    build cache under /verif/.cache may be cleaned by somebody else while a long run is in progress)."""
+    import shutil
+    d = run.tmpdir("c07so")
+    out = {}
+    for name, san in (("gcc", False), ("asan", True)):
+        for attempt in range(3):
+            src = codec.build(sanitize=san)
+            try:
+                out[name] = shutil.copy(src, os.path.join(d, os.path.basename(src)))
+                break
+            except OSError:
+                if attempt == 2:
+                    raise MachineryError("codec build %s vanished from the cache" % src)
+    return out
+
+
 def crash_excerpt(err):
     keep = [ln for ln in err.splitlines() if re.search(
         r"ERROR: AddressSanitizer|^(READ|WRITE) of size|^\s+#[0-3] |SUMMARY:|Assertion|runtime error|is located|"
         r"ERROR: weight out of range|underrun", ln)]
-    return "\n".join(keep[:14]) or err[-600:]
+    txt = "\n".join(keep[:14]) or err[-600:]
+    # no process ids / addresses: the text is part of the replay file identity
+    return re.sub(r"0x[0-9a-f]+", "0xN", re.sub(r"==\d+==", "==pid==", txt))
 
 
 def run_jobs(run, so, jobs, asan, nproc=8, timeout=3000):
@@ -91,7 +111,7 @@ def run_jobs(run, so, jobs, asan, nproc=8, timeout=3000):
 
     def work(si):
         todo = list(shards[si])
-        attempt = 0
+        attempt = stuck = 0
         while todo:
             attempt += 1
             jp = os.path.join(d, "j%d_%d.json" % (si, attempt))
@@ -134,9 +154,11 @@ def run_jobs(run, so, jobs, asan, nproc=8, timeout=3000):
                                 "signature": crash_signature(p.returncode, p.stderr),
                                 "stderr_tail": crash_excerpt(p.stderr + "\n" + p.stdout), "len": 0}
             todo = [j for j in rest if j["id"] != cid]
-            if attempt >= MAX_CRASHES_PER_SHARD:
-                # the build is broken for (nearly) every request: each death found so far is reported; the rest of
-                # the shard is not run (main() insists that a run with skipped requests has violations)
+            stuck = stuck + 1 if not done else 0
+            if stuck >= MAX_CRASHES_PER_SHARD or attempt >= 60:
+                # the build dies on request after request without completing any: each death found so far is
+                # reported; the rest of the shard is not run (main() insists that a run with skipped requests has
+                # violations).  Isolated deaths between successful requests do not stop the shard.
                 with lock:
                     for j in todo:
                         results[j["id"]] = {"id": j["id"], "outcome": "skipped"}
@@ -227,7 +249,7 @@ def expected_mc_states(cfgtext):
                 dil = [(1, 1), (2, 2)] if kh <= 4 and kw <= 4 else [(1, 1), (1, 2), (2, 1), (2, 2)]
                 for oub in (4, 8):
                     for blk in blks:
-                        if blk % oub:
+                        if blk % oub and od > blk:
                             continue
                         for bits in (8, 16):
                             for dy, dx in dil:
@@ -539,7 +561,7 @@ def main(tier):
     sd = seed()
     rng = random.Random(sd * 7919 + 7)
     quick = tier == "quick"
-    builds = {"gcc": codec.build(), "asan": codec.build(sanitize=True)}
+    builds = private_builds(run)
     col = Collector(run)
 
     # ---- MC (in a thread: TLC uses 8 workers while the replays use the other cores)
@@ -706,7 +728,7 @@ def replay(path):
     run = Run("C07", "quick")
     job = dict(rp["job"], id=0)
     job.pop("mode", None)
-    builds = {"gcc": codec.build(), "asan": codec.build(sanitize=True)}
+    builds = private_builds(run)
     b = rp.get("build", "gcc")
     col = Collector(run)
     hits = []
